@@ -50,8 +50,68 @@ def _correspondence_once(ctx, rep=0):
     for j in jobs:
         tcorr.compare(ctx, j, 'C01', observables=('out', 'ld'))
     spline_boxes(ctx, gen)
+    reuse_and_scale(ctx)
     # linear family, normalisation layers, permutations, squeeze, wrappers, UMNN: Jacobian check directly
     oracles.direct_on_extras(ctx, 'C01', oracles.jacobian_search)
+
+
+def reuse_and_scale(ctx, report=None):
+    """(a) ONE element-wise affine instance re-used on inputs of different event shapes (and after its scale buffer was replaced): the
+    log-abs-det is sum over the event of log|scale| (broadcast) every time; (b) triangular linear layers whose determinant leaves the
+    float range although log|det| is moderate (many features, diagonal away from 1), both precisions: the returned log-abs-det is
+    the sum of the log-diagonal"""
+    import nflows.transforms as T
+    g = torch.Generator().manual_seed(ctx.seed + 111)
+    def emit(ok, key, what, case, match, got, want):
+        if report is None:
+            ctx.case(key=key, branch='reuse-and-scale/' + key[0], nontrivial=True)
+            if not ok:
+                ctx.disagree('C01/' + key[0], case, got, want, what)
+        elif not ok:
+            report(what, case, match)
+    # (a)
+    for name, scale in (('scalar', torch.tensor(2.0, dtype=torch.float64)), ('per-channel', torch.tensor([2.0, 0.25], dtype=torch.float64).reshape(2, 1, 1))):
+        t = T.PointwiseAffineTransform(shift=0.5, scale=scale.clone()).double(); t.eval()
+        shapes = [(3, 3), (3, 7), (3, 2, 2)] if name == 'scalar' else [(3, 2, 2, 2), (3, 2, 3, 1), (3, 2, 1, 4)]
+        for inverse in (False, True):
+            for k, shp in enumerate(shapes + shapes[:1]):
+                x = torch.randn(shp, generator=g, dtype=torch.float64)
+                y, ld = (t.inverse(x) if inverse else t(x))
+                want = float(torch.log(scale.abs()).expand(shp[1:]).sum()) * (-1 if inverse else 1)
+                ok = bool(torch.allclose(ld, torch.full((shp[0],), want, dtype=torch.float64), rtol=1e-12, atol=1e-12))
+                emit(ok, ('affine-reuse', name, inverse, k), 'element-wise affine re-used on event shape %s: log-abs-det %s, sum of log|scale| over the event %r' % (list(shp[1:]), ld.tolist(), want),
+                     {'class': 'PointwiseAffineTransform', 'scale': name, 'event_shapes_in_order': [list(s_[1:]) for s_ in (shapes + shapes[:1])[:k + 1]], 'inverse': inverse},
+                     {'class': 'PointwiseAffineTransform', 'symptom': 'logdet-depends-on-history'}, ld.tolist(), want)
+        with torch.no_grad():
+            t._scale.mul_(3.0)                          # e.g. load_state_dict of other statistics
+        x = torch.randn(shapes[0], generator=g, dtype=torch.float64)
+        y, ld = t(x)
+        want = float(torch.log((scale * 3.0).abs()).expand(shapes[0][1:]).sum())
+        emit(bool(torch.allclose(ld, torch.full((shapes[0][0],), want, dtype=torch.float64), rtol=1e-12, atol=1e-12)), ('affine-rescaled', name),
+             'element-wise affine after its scale buffer changed: log-abs-det %s, expected %r' % (ld.tolist(), want),
+             {'class': 'PointwiseAffineTransform', 'scale': name, 'history': ['forward', 'scale buffer changed', 'forward']},
+             {'class': 'PointwiseAffineTransform', 'symptom': 'logdet-depends-on-history'}, ld.tolist(), want)
+    # (b)
+    for dt in (torch.float32, torch.float64):
+        for (f, dval) in ((48, 0.05), (96, 3.0), (128, 0.3)):
+            torch.manual_seed(f)
+            for cls in ('LULinear', 'OneByOneConvolution'):
+                t = T.LULinear(f, identity_init=True) if cls == 'LULinear' else T.OneByOneConvolution(f, identity_init=True)
+                with torch.no_grad():
+                    t.unconstrained_upper_diag.copy_(torch.log(torch.expm1(torch.full((f,), dval)) ))    # softplus^-1(dval)
+                    t.lower_entries.copy_(0.05 * torch.randn(t.lower_entries.shape, generator=g))
+                t = t.to(dt); t.eval()
+                x = torch.randn((2, f) if cls == 'LULinear' else (2, f, 2, 1), generator=g, dtype=torch.float64).to(dt)
+                try:
+                    y, ld = t(x)
+                    n_pos = 1 if cls == 'LULinear' else 2
+                    want = n_pos * float(torch.log(torch.nn.functional.softplus(t.unconstrained_upper_diag.double()) + t.eps).sum())
+                    ok = bool(torch.isfinite(ld).all()) and bool(((ld.double() - want).abs() <= (1e-4 if dt == torch.float32 else 1e-9) * (1 + abs(want))).all())
+                    got = ld.tolist()
+                except Exception as ex:
+                    ok, got, want = False, 'raised %r' % (ex,), None
+                emit(ok, ('lu-scaled', cls, f, dval, str(dt)), '%s(%d) with diagonal ~%g in %s: log-abs-det %s, sum of log diag %r' % (cls, f, dval, dt, got, want),
+                     {'class': cls, 'features': f, 'diag': dval, 'dtype': str(dt)}, {'class': cls, 'symptom': 'logdet-overflow', 'dtype': str(dt)}, got, want)
 
 
 def spline_boxes(ctx, gen, inverse=False, prop='C01'):
@@ -115,6 +175,7 @@ def spline_boxes(ctx, gen, inverse=False, prop='C01'):
 
 
 def search(ctx):
+    reuse_and_scale(ctx, report=lambda what, case, match: ctx.fail(what, case, match=match) if sum(1 for f in ctx.failing if f['match'] == match) < 2 else None)
     oracles.jacobian_search(ctx, budget_s=300 if ctx.quick() else 1500)
 
 
